@@ -366,6 +366,27 @@ pub mod codegen {
 
         /*@FN_CHECK@*/
 
+        // ---- inductive-step copy: recursive calls redirected to the callee contract
+        pub static mut CALLEE_LOG: [(u8, usize); 2] = [(0, 0); 2];
+        pub static mut CALLEE_N: usize = 0;
+        pub static mut CALLEE_ANSWER: [bool; 2] = [false; 2];
+        /// callee contract of the recursive calls: an arbitrary verdict per call (what a correct check
+        /// of the sub-types answers is decided by the harness), recording what was asked
+        fn check_roto_type_callee(_type_info: &mut TypeInfo, rust_type: TypeId, roto_type: &Type) -> Result<(), TypeMismatch> {
+            unsafe {
+                assert!(CALLEE_N < 2, "shim: more than two sub-checks");
+                CALLEE_LOG[CALLEE_N] = (rust_type.0, roto_type as *const Type as usize);
+                let a = CALLEE_ANSWER[CALLEE_N];
+                CALLEE_N += 1;
+                if a {
+                    Ok(())
+                } else {
+                    Err(TypeMismatch { rust_type: String::new(), roto_type: String::new() })
+                }
+            }
+        }
+        /*@FN_CHECK_STEP@*/
+
         /*@TRAIT_ROTOFUNC@*/
 
         /*@MACRO_UNIT@*/
@@ -382,6 +403,7 @@ pub mod codegen {
         /*@CALL_FUNC7@*/;
 
         include!("harness.rs");
+        include!("harness_modular.rs");
     }
 }
 
